@@ -448,6 +448,9 @@ func signJudge(key ref.Pt, msg []byte) func(t *vk.T, honest []fx.Outcome, keyPre
 }
 
 // buildCamp prepares a protocol instance. n parties (Doerner: 2).
+// campForcePool makes the next instances run with a worker pool (set and reset by the caller; one case at a time per child).
+var campForcePool bool
+
 func buildCamp(t *vk.T, name string, n int) *camp {
 	r := t.Rng
 	ids := fx.IDs(r, r.Intn(3), n)
@@ -463,7 +466,7 @@ func buildCamp(t *vk.T, name string, n int) *camp {
 	}
 	th := 1
 	var pl *pool.Pool
-	if (strings.HasPrefix(name, "cmp-") || strings.HasPrefix(name, "doerner-")) && r.Intn(3) == 0 {
+	if (strings.HasPrefix(name, "cmp-") || strings.HasPrefix(name, "doerner-")) && (r.Intn(3) == 0 || campForcePool) {
 		pl = pool.NewPool(2)
 		c.pl = pl
 		t.Obs("instances_with_worker_pool", 1)
